@@ -171,6 +171,10 @@ fn extract<'tcx>(tcx: TyCtxt<'tcx>, krate: &str) -> J {
                 o.set("output", J::s(sb.output().to_string()));
                 o.set("unsafe", J::Bool(sig.safety().is_unsafe()));
                 o.set("span", span_j(tcx, tcx.def_span(did)));
+                // names of all generic parameters (the parent's first), in the order call-site substitutions list them
+                let g = tcx.generics_of(did);
+                let gs: Vec<J> = (0..g.count()).map(|i| J::s(g.param_at(i, tcx).name.to_string())).collect();
+                o.set("generics", J::Arr(gs));
                 fns.push(o);
             }
             DefKind::Const { .. } | DefKind::AssocConst { .. } | DefKind::Static { .. } => {
